@@ -30,7 +30,7 @@ MODS = ["pa", "pab", "pb", "pbb"]  # module path components -> N codes; "pab"/"p
 
 
 def mod_code(m):
-    return MODS.index(m) + 1
+    return MODS.index(m) + 1 if m in MODS else 99  # 99: a module name no generated override mentions
 
 
 # ---------------------------------------------------------------------------
@@ -291,6 +291,9 @@ def impl_effective(stack, cli, queries, via_visitor=False):
             else:
                 v = o.get_value_for(ConfigOption.registry[opt])
                 out[(opt, tuple(mp))] = list(v) if isinstance(v, (list, tuple)) else v
+        # the whole-run question NameCheckVisitor._run_on_files asks (is a code enabled for ANY module?)
+        for opt in sorted({o for o, _ in queries if o in CODES}):
+            out[(ANYWHERE, opt)] = bool(options.is_error_code_enabled_anywhere(getattr(ErrorCode, opt)))
         return out
     finally:
         shutil.rmtree(d, ignore_errors=True)
@@ -371,6 +374,24 @@ def model_term(stack, cli, opt, mp, defaults):
 
 
 LIST_ATOMS = ["a", "b", "c", "d"]
+ANYWHERE = "@anywhere"  # pseudo-query: Options.is_error_code_enabled_anywhere
+
+
+def model_term_anywhere(stack, cli, opt, defaults):
+    files = lib.clist([enc_entries(f, opt, True) for f in stack])
+    cli_vals = [enc_value(opt, v) for (o, v) in cli if o == opt]
+    return f"option_map (fun b : bool => Some (if b then 1%Z else 0%Z)) (effective_anywhere {files} {lib.clist([lib.cz(v) for v in cli_vals])} {lib.cz(enc_value(opt, defaults[opt]))})"
+
+
+def override_paths(stack):
+    out = set()
+    for f in stack:
+        for e in f:
+            if e[0] == "overrides" and isinstance(e[1], (list, tuple)) and len(e[1]) > 1 and isinstance(e[1][1], (list, tuple)):
+                for ov in e[1][1]:
+                    if isinstance(ov, (list, tuple)) and len(ov) > 1 and isinstance(ov[1], (list, tuple)):
+                        out.add(tuple(ov[1]))
+    return out
 
 
 def decode_model(opt, res):
@@ -532,6 +553,7 @@ def run(tier: str, replay: str | None = None):
     impl_results = []
     oracle_mismatch = []
     n_via = 0
+    n_anywhere = 0
     via_budget = 160 if tier == "quick" else 1500
     for ci, (st, cli, qs) in enumerate(cases):
         opts = sorted({e[1] for f in st for e in all_entries(f) if e[0] == "set"} | {BOOL_ON, INT_OPT})
@@ -555,6 +577,20 @@ def run(tier: str, replay: str | None = None):
             hist["chains"] += 1
         else:
             hist["nonchain"] += 1
+        for o in opts:
+            if o not in CODES:
+                continue
+            terms.append(model_term_anywhere(st, cli, o, defaults))
+            meta.append((ci, o, ANYWHERE))
+            if chain and isinstance(res, dict) and "CRASH" not in res:
+                # oracle (one direction, as the property needs it): a code that the documented precedence enables
+                # for SOME module -- a queried one, one named by an override, or one no setting mentions --
+                # must be reported as enabled anywhere
+                probes = {tuple(q) for q in qs} | override_paths(st) | {(), ("zz_unmentioned",), ("pa", "zz_unmentioned")}
+                witness = next((p for p in sorted(probes) if oracle_lookup(st, nreach, cli, o, p, defaults)), None)
+                n_anywhere += 1
+                if witness is not None and not res[(ANYWHERE, o)]:
+                    oracle_mismatch.append((ci, (o, list(witness)), "is_error_code_enabled_anywhere() = False", f"True: enabled for module {'.'.join(witness) or '<top level>'}"))
         for (o, q) in queries:
             terms.append(model_term(st, cli, o, q, defaults))
             meta.append((ci, o, q))
@@ -581,8 +617,8 @@ def run(tier: str, replay: str | None = None):
                 res = impl_results[ci]
                 if isinstance(res, dict) and "CRASH" in res:
                     continue
-                i = "ERR" if res == "ERR" else res[(o, tuple(q))]
-                distinct.add((repr(cases[ci][0]), o, q))
+                i = "ERR" if res == "ERR" else (res[(ANYWHERE, o)] if q == ANYWHERE else res[(o, tuple(q))])
+                distinct.add((repr(cases[ci][0]), o, q if q == ANYWHERE else tuple(q)))
                 if m != i:
                     corr_mismatch.append((ci, (o, q), i, m))
         except RuntimeError as ex:
@@ -591,7 +627,7 @@ def run(tier: str, replay: str | None = None):
     # 5. verdicts
     def case_payload(ci, q):
         st, cli, qs = cases[ci]
-        return {"stack": st, "cli": cli, "queries": [list(q[1])] if q else [list(x) for x in qs], "toml": [render_entries(f, [f"f{i}.toml" for i in range(len(st))], True) for f in st]}
+        return {"stack": st, "cli": cli, "queries": [list(q[1])] if q and q[1] != ANYWHERE else [list(x) for x in qs], "toml": [render_entries(f, [f"f{i}.toml" for i in range(len(st))], True) for f in st]}
 
     for ci, q, got, want in oracle_mismatch[:10]:
         rep.violation({"kind": "failing-input", "input": case_payload(ci, q), "query": q, "observed": got, "expected": want,
@@ -616,6 +652,7 @@ def run(tier: str, replay: str | None = None):
         traces_validated_against_impl=len(terms) - len(corr_mismatch),
         input_distribution=hist,
         cases_through_prepare_constructor_kwargs=n_via,
+        enabled_anywhere_oracle_checks=n_anywhere,
         correspondence_mismatches=len(corr_mismatch),
         oracle_mismatches=len(oracle_mismatch),
         exhaustive=False,
